@@ -174,9 +174,60 @@ pub fn desugared(src: &str) -> Result<Result<String, String>, PanicInfo> {
         match SourceUnitDesugarer::new(&parser.spans, &parser.arena, unit).run() {
             | Ok(out) => {
                 let formatter = zydeco_surface::bitter::fmt::Formatter::new(&out.arena);
-                Ok(out.root.ugly(&formatter))
+                Ok(merge_sigma_telescopes(&out.root.ugly(&formatter)))
             }
             | Err(e) => Err(format!("desugar: {}", e)),
         }
     })
+}
+
+/// Desugaring wraps every `exists` keyword's telescope into one kind annotation: `exists a . exists b . c` and
+/// `exists a b . c` become `(sigma a . sigma b . c : VType)`, but `exists a . (exists b . c)` becomes
+/// `(sigma a . (sigma b . c : VType) : VType)`. The inner annotation says nothing the outer one does not (the body of a
+/// sigma type is a value type), and the formatter, which merges telescopes through a redundant group by design, removes
+/// it. The comparison of desugared terms therefore reads a `( .. : VType)` wrapper that is directly the body of a sigma
+/// as its contents.
+pub fn merge_sigma_telescopes(ugly: &str) -> String {
+    let bytes = ugly.as_bytes();
+    // matching parenthesis of every `(`, string literals skipped
+    let mut partner = vec![usize::MAX; bytes.len()];
+    let mut stack = Vec::new();
+    let mut i = 0;
+    while i < bytes.len() {
+        match bytes[i] {
+            | b'"' => {
+                i += 1;
+                while i < bytes.len() && bytes[i] != b'"' {
+                    if bytes[i] == b'\\' {
+                        i += 1;
+                    }
+                    i += 1;
+                }
+            }
+            | b'(' => stack.push(i),
+            | b')' => {
+                if let Some(open) = stack.pop() {
+                    partner[open] = i;
+                }
+            }
+            | _ => {}
+        }
+        i += 1;
+    }
+    let mut drop = vec![false; bytes.len()];
+    const OPEN: &str = ". (sigma ";
+    const CLOSE: &str = " : VType)";
+    let mut from = 0;
+    while let Some(at) = ugly[from..].find(OPEN) {
+        let open = from + at + 2;
+        let close = partner[open];
+        if close != usize::MAX && close + 1 >= CLOSE.len() && &ugly[close + 1 - CLOSE.len()..=close] == CLOSE {
+            drop[open] = true;
+            for d in drop.iter_mut().take(close + 1).skip(close + 1 - CLOSE.len()) {
+                *d = true;
+            }
+        }
+        from = open + 1;
+    }
+    ugly.char_indices().filter(|(i, _)| !drop[*i]).map(|(_, c)| c).collect()
 }
